@@ -247,3 +247,15 @@ def oracleSem (prop : String) (o : Opts) (env : Env) (inN outN : Node) : Verdict
   else .skip "no-oracle"
 
 end VueJsx
+
+/-! ### pair oracles: two runs of the implementation on related inputs -/
+namespace VueJsx
+
+def oraclePair (mode : String) (o : Opts) (env : Env) (a b : Node) : Verdict :=
+  let x := if mode == "c12" then canon (eraseHints (effectivePragma o env) a) else canon a
+  let y := canon b
+  match firstDiff x y [] with
+  | none => .ok
+  | some (path, p, q) => .fail mode s!"at {path}: {showN p} vs {showN q}"
+
+end VueJsx
